@@ -99,6 +99,12 @@ def all_cases(tier):
                             perms = perms[:: max(1, len(perms) // 8)]
                         for perm in perms:
                             cases.append((pn, kind, mo, tuple(fl), tuple(perm), tuple(loglvl)))
+    # every file given by a path RELATIVE to the working directory (the rule and the macro files live in its parent)
+    for pn, mo in (("found_once", ()), ("several", ()), ("macro_one", ("m2",)), ("macro_order", ("m1", "m2")), ("macro_order", ("m2", "m1")), ("fail_input", ())):
+        for kind in ("s", "b"):
+            for fl in ((), ("--all-matches", "--return_only_address")):
+                n = 2 + len(fl) + (1 if mo else 0)
+                cases.append((pn, kind, mo, fl, tuple(range(n)), ("REL",)))
     for bad in ("no_p", "no_input", "both_inputs", "unknown_flag", "p_without_value"):
         cases.append(("found_once", "s", (), (), (), ("INVALID", bad)))
     for pn in ("found_once", "several", "not_found"):
@@ -189,7 +195,10 @@ def cli(f, pn, kind, mo, fl, perm, loglvl):
         # every group starts with an option, so any order is a valid command line
         for g in ordered:
             argv += g
-        argv += list(loglvl)
+        if loglvl and loglvl[0] == "REL":
+            argv = [os.path.relpath(a, f["cwd"]) if os.path.isabs(a) else a for a in argv]
+        else:
+            argv += list(loglvl)
     env = dict(os.environ)
     env["PYTHONPATH"] = os.path.join(REPO, "src")
     if loglvl and loglvl[0] == "ENV":
